@@ -53,6 +53,34 @@ func vfExecMore3(f []string, op string) (string, bool) {
 				if errAt < 0 {
 					rd = bytes.NewBuffer(append([]byte{}, data...))
 				}
+			case "bytesadv", "stringsadv", "sectionadv", "fileadv":
+				// a seekable reader the caller has already advanced: it delivers `data`, and what lies in
+				// front of its position (a PNG signature) is none of DetectReader's business
+				if errAt < 0 {
+					whole := append(append([]byte{}, vfAdvPrefix...), data...)
+					switch f[6] {
+					case "bytesadv":
+						br := bytes.NewReader(whole)
+						br.Seek(int64(len(vfAdvPrefix)), io.SeekStart)
+						rd = br
+					case "stringsadv":
+						sr := strings.NewReader(string(whole))
+						io.CopyN(io.Discard, sr, int64(len(vfAdvPrefix)))
+						rd = sr
+					case "sectionadv":
+						sr := io.NewSectionReader(bytes.NewReader(whole), 3, int64(len(whole))-3)
+						sr.Seek(int64(len(vfAdvPrefix))-3, io.SeekStart)
+						rd = sr
+					case "fileadv":
+						if tf, err := os.CreateTemp("", "vf-adv-*"); err == nil {
+							defer os.Remove(tf.Name())
+							defer tf.Close()
+							tf.Write(whole)
+							tf.Seek(int64(len(vfAdvPrefix)), io.SeekStart)
+							rd = tf
+						}
+					}
+				}
 			}
 		}
 		m, err := DetectReader(rd)
@@ -95,6 +123,8 @@ func vfExecMore3(f []string, op string) (string, bool) {
 }
 
 var vfSentinel = errors.New("verif: injected read failure")
+
+var vfAdvPrefix = []byte("\x89PNG\r\n\x1a\n\x00\x00\x00\rIHDR envelope line\n")
 
 func vfErrClass(err error) string {
 	switch {
@@ -256,7 +286,7 @@ func (g *vfGen) genC05() {
 		}
 		g.emit(vfOp("reader", lim, in, g.chunks(len(in)), g.intn(2), errAt))
 		if i%4 == 0 {
-			w := []string{"bufio", "bufio16", "limited", "multi", "bytes", "strings", "buffer"}[g.intn(7)]
+			w := []string{"bufio", "bufio16", "limited", "multi", "bytes", "strings", "buffer", "bytesadv", "stringsadv", "sectionadv", "fileadv"}[g.intn(11)]
 			g.emit(vfOp("reader", lim, in, g.chunks(len(in)), g.intn(2), errAt, w))
 		}
 		if i%10 == 0 {
@@ -273,7 +303,14 @@ func (g *vfGen) genC05() {
 		g.emit(vfOp("reader", 0, b, g.chunks(sz), 1, -1))
 		g.emit(vfOp("file", 0, b))
 	}
-	for _, w := range []string{"bufio", "bufio16", "limited", "multi", "bytes", "strings", "buffer"} {
+	for _, w := range []string{"bytesadv", "stringsadv", "sectionadv", "fileadv"} {
+		for _, in := range [][]byte{[]byte("plain text after the envelope"), []byte("%PDF-1.4\n"), []byte("{\"a\":1}"), {}, {0, 1, 2}} {
+			for _, lim := range []int{0, 3072, 16, 5} {
+				g.emit(vfOp("reader", lim, in, "~", 0, -1, w))
+			}
+		}
+	}
+	for _, w := range []string{"bufio", "bufio16", "limited", "multi", "bytes", "strings", "buffer", "bytesadv", "fileadv"} {
 		for _, pos := range []int{4095, 4096, 5000, 8191} {
 			b := g.textBytes(9000)
 			b[pos] = 0
